@@ -131,15 +131,17 @@ def _op_norms(Dm):
 def measure_state(rs, vec):
     rho = rs.mat(vec)
     e = float(abs(np.trace(rho) - 1.0))
-    v = max(0.0, -_herm_min_eig(rho))
-    return {"eq": (e, e), "ineq": (v, v), "herm": _herm_defect(rho)}
+    lam = _herm_min_eig(rho)
+    v = max(0.0, -lam)
+    return {"eq": (e, e), "ineq": (v, v), "herm": _herm_defect(rho), "lam": lam}
 
 
 def measure_povm(rs, vecs):
     Ms = [rs.mat(v) for v in vecs]
     lo, hi = _op_norms(sum(Ms) - np.eye(rs.d))
-    v = max(0.0, -min(_herm_min_eig(M) for M in Ms))
-    return {"eq": (lo, hi), "ineq": (v, v), "herm": max(_herm_defect(M) for M in Ms)}
+    lam = min(_herm_min_eig(M) for M in Ms)
+    v = max(0.0, -lam)
+    return {"eq": (lo, hi), "ineq": (v, v), "herm": max(_herm_defect(M) for M in Ms), "lam": lam}
 
 
 def _tp_interval(rs, S):
@@ -152,24 +154,25 @@ def _tp_interval(rs, S):
 
 def _cp_interval(rs, S):
     C = rs.reshuffle(S)
-    v = max(0.0, -_herm_min_eig(C))
+    lam = _herm_min_eig(C)
+    v = max(0.0, -lam)
     # Choi matrix normalised to trace d (quara) or to trace 1; a non-normalised orthogonal basis rescales the
     # library's sum_ab hs[a,b] B_a (x) conj(B_b) by the common squared norm
     g = float(rs.gram_diag.max())
-    return v * min(1.0 / rs.d, 1.0), v * max(1.0, g), _herm_defect(C)
+    return v * min(1.0 / rs.d, 1.0), v * max(1.0, g), _herm_defect(C), lam
 
 
 def measure_gate(rs, hs):
     S = rs.superop_of_hs(hs)
-    lo, hi, hd = _cp_interval(rs, S)
-    return {"eq": _tp_interval(rs, S), "ineq": (lo, hi), "herm": hd}
+    lo, hi, hd, lam = _cp_interval(rs, S)
+    return {"eq": _tp_interval(rs, S), "ineq": (lo, hi), "herm": hd, "lam": lam}
 
 
 def measure_mprocess(rs, hss):
     Ss = [rs.superop_of_hs(h) for h in hss]
     cps = [_cp_interval(rs, S) for S in Ss]
     return {"eq": _tp_interval(rs, sum(Ss)), "ineq": (max(c[0] for c in cps), max(c[1] for c in cps)),
-            "herm": max(c[2] for c in cps)}
+            "herm": max(c[2] for c in cps), "lam": min(c[3] for c in cps)}
 
 
 MEASURE = {"State": measure_state, "Povm": measure_povm, "Gate": measure_gate, "MProcess": measure_mprocess}
